@@ -12,8 +12,8 @@ CLAIMED = {
         text="Seeded search: conforming multi-link streams from the upstream model x five check modes x options x file/pipe x schedule policies x capacity caps x benign I/O faults; oracle: zero errors, no ERROR line, exit 0, statistics/report totals 0. Sampling, not proof: the grammar is unbounded.",
         note="Trusts the generator's reading of 'conforming' (DESIGN.md appendix A) and the scheduler granularity (switches at channel ops/spawn/join/exit)."),
     "C04": dict(level="exploration", ref="DESIGN.md §3 C04",
-        text="Seeded search over random bytes, byte-corrupted framed streams and conforming streams with 1-4 structure-aware corruption faults x all modes/options x file/pipe x schedules x read faults (short, EINTR, EIO); oracle: no panic in any managed thread, no deadlock, step budget, wall-clock limit, no fatal signal, exit status in {0,1,N}. Hangs are deterministic deadlock reports under the scheduler.",
-        note="panic=unwind build of the same sources stands in for the shipped panic=abort build; allocation failure and sanitizer builds are out of scope."),
+        text="Seeded search over random bytes, byte-corrupted framed streams and conforming streams with 1-4 structure-aware corruption faults x all modes/options x file/pipe x schedules x read faults (short, EINTR, EIO); oracle: no panic in any managed thread, no deadlock, step budget, wall-clock limit, no fatal signal, exit status in {0,1,N}. Hangs are deterministic deadlock reports under the scheduler. The thorough tier runs the scenario twice: 150000 cases with simulator + code under test built with AddressSanitizer (memory errors abort the simulated process), then 600000 cases with the plain build.",
+        note="panic=unwind build of the same sources stands in for the shipped panic=abort build; allocation failure is out of scope; std itself is not ASan-instrumented."),
     "C05": dict(level="exploration", ref="DESIGN.md §3 C05",
         text="For each (input, command line): one canonical-schedule run, then 8 (quick) / 24 (thorough) runs under random, PCT and starvation policies with capped queues and benign I/O faults; all listed outputs must be byte-identical (WARN lines as a multiset). Distinct interleavings and collector arrival orders are measured.",
         note="Thread switches happen only at channel operations, spawn, join and thread exit; sound for this code base because all cross-thread effects are such operations plus two flags read at loop heads."),
